@@ -86,7 +86,7 @@ def execute(run):
     binary = build_driver()
     info = driver_info(binary)
     extra = {'circles': info['circles']}
-    n = 600 if run.tier == 'quick' else 6000
+    n = 2000 if run.tier == 'quick' else 8000
     k = 16 if run.tier == 'quick' else 32
     run.run_shards(binary, [{'name': 'v-%d' % i, 'n': n} for i in range(k)], extra=extra)
 
